@@ -32,7 +32,7 @@ func runC29(c *core.Ctx) error {
 		return err
 	}
 	defer l.Close()
-	bases, err := chooseBases(c, l, c.Pick(3, 9), c.Pick(2, 14), c.Pick(150, 400))
+	bases, err := chooseBases(c, l, c.Pick(3, 9), c.Pick(1, 14), c.Pick(150, 400))
 	if err != nil {
 		return err
 	}
@@ -45,7 +45,7 @@ func runC29(c *core.Ctx) error {
 	singles := make([]int, len(bases))
 	accepted, rejected, wcNo := 0, 0, 0
 	var rejectedCases []mcCase
-	maxSampled := c.Pick(150, 800)
+	maxSampled := c.Pick(80, 800)
 	run := func(sub []NamedBase, idx []int, depth int, sampleP float64, timeout time.Duration) error {
 		t0 := time.Now()
 		res, err := runMC(c, sub, mcOpts{Mode: "safe", MaxEdits: depth, EvalWC: true, Strict: true, Workers: c.Pick(6, 12), Timeout: timeout}, func(m mcCase) error {
